@@ -287,7 +287,7 @@ pub fn run_batch(ctx: &Ctx, cfg: &BatchCfg) -> BatchResult {
                 "discarded_runs": a.harness_error_count,
                 "discarded_run_examples": a.harness_errors,
                 "real_code": ["weechess-core (all of it)", "weechess-engine: searcher.rs, uci.rs, eval/*, book.rs, embedded opening book"],
-                "stubs": ["rayon (one simulated task per item)", "std::sync / std::thread (shuttle, sequentially consistent)", "clock and sleep (simulated)", "stdin / stdout / stderr (simulated)", "rand::thread_rng (seeded)", "weechess-cli main.rs not executed"],
+                "stubs": ["rayon (one simulated task per item)", "std::sync / std::thread (shuttle 0.9.3, sequentially consistent; shuttle-engine 0.1.1 vendored with one teardown guard)", "clock and sleep (simulated)", "stdin / stdout / stderr (simulated)", "rand::thread_rng (seeded)", "weechess-cli main.rs not executed"],
                 "enumerated": match cfg.prop.as_str() {
                     "C04" => json!({"stop_at_world_step_0_to_64": {"space": 65, "covered": a.enum_stop_steps.len()}, "stop_at_worker_node_around_polls": {"space": 7, "covered": a.enum_stop_nodes.len(), "values": [1, 2, 9999, 10000, 10001, 19999, 20000]}, "note": "crossed with drawn positions, depths, worker counts, multiplicities and seeded schedules; the remaining instants (global node counts, iteration starts, late world steps) are drawn"}),
                     "C14" => json!({"malformed_lines": {"space": crate::malformed::enumerated_cached().len(), "covered": a.enum_lines}, "note": "each enumerated line is injected once at a drawn place of a drawn session; further lines are seeded mutations"}),
